@@ -1,11 +1,14 @@
-(* Property C08 -- printing an AST and parsing the text back yields the same AST.
-   Statements only; proofs live in Proofs/SyntaxPrinter.v.  The law for whole documents is
-   judged directly on the implementation by Run/C08run.v; the theorems here are about the
-   string quoting of the printer model read back by the lexer model (the part of the law
-   that depends on the characters of string values and descriptions). *)
+(* Property C08 -- printing an AST and parsing the text back yields the same AST; printing is
+   stable after one round and does not modify the AST it is given.
+   Statements only; proofs live in Proofs/Syntax*.v.  Models: Syntax/Printer.v (printer.go:
+   executable and type-system definitions, descriptions as block or quoted strings),
+   Syntax/Lexer.v, Syntax/Parser.v, Syntax/PrintVisit.v (how visitor.Visit applies the values
+   returned by the printer's reducers).  The same law is judged on the implementation by
+   Run/C08run.v, which also compares the printed text with print_doc byte for byte. *)
 From Coq Require Import String List NArith Bool.
 From GQL Require Import Base.Bytes Syntax.Lexer Syntax.Ast Syntax.Parser Syntax.Printer Proofs.SyntaxPrinter Proofs.SyntaxUtf8 Proofs.SyntaxRender Syntax.Grammar Proofs.SyntaxTypeRT
-  Proofs.SyntaxComplete Proofs.SyntaxRoundTrip Proofs.SyntaxRoundTripFinal.
+  Proofs.SyntaxComplete Proofs.SyntaxRoundTrip Proofs.SyntaxRoundTripFinal Proofs.SyntaxBlock Proofs.SyntaxRoundTripSDL
+  Syntax.PrintVisit Proofs.SyntaxNoEdit.
 Import ListNotations.
 Open Scope N_scope.
 
@@ -112,6 +115,95 @@ Theorem C08_value_roundtrip_partial : forall src ts mb fuel c v st', lex src = O
 Proof. exact value_roundtrip_src. Qed.
 Print Assumptions C08_value_roundtrip_partial.
 
+(* ---- type-system definitions and descriptions ---- *)
+
+(* Block strings: a description s that the printer writes as a block string
+   (printableAsBlockString s) is given back by blockStringValue from the raw text between the
+   triple quotes -- s itself, or LF s LF when s has several lines -- at every indentation depth d
+   (the text passes through indent() once per enclosing block / argument list).  No UTF-8
+   hypothesis: bytes below 128 are characters of their own in every byte string. *)
+Theorem C08_block_string_roundtrip : forall s d, printable_as_block s = true ->
+  block_string_value (N.iter d indent_bytes (block_raw s)) = s.
+Proof. exact block_value_rt. Qed.
+Print Assumptions C08_block_string_roundtrip.
+
+(* ... and the lexer reads the printed block string as one BLOCK_STRING token with value s,
+   whatever follows it (s not empty, printable as a block string, valid UTF-8). *)
+Theorem C08_block_string_lexed : forall s d rest fuel pos, blk_okb s = true ->
+  let r := render_piece (PBlk d s) in
+  (length (r ++ rest) < fuel)%nat ->
+  read_token fuel (r ++ rest) pos = Ok (mktok BLOCK_STRING pos (pos + nlen r) s, rest, pos + nlen r).
+Proof. exact read_token_block. Qed.
+Print Assumptions C08_block_string_lexed.
+
+(* The layout of every parsed document whose string tokens are valid UTF-8 satisfies the
+   hypothesis of C08_lex_layout (what the runner evaluates as a cross-check on every case). *)
+Theorem C08_layout_wf : forall src d mb, parse src = Ok (d, mb) -> src_strings_utf8 src = true ->
+  layout_wfb (lay_doc d) = true.
+Proof.
+  intros src d mb H A. unfold parse in H. unfold src_strings_utf8 in A.
+  destruct (lex src) as [[ts m]| |] eqn:L; try discriminate.
+  destruct (parse_tokens ts) as [d0| |] eqn:P; try discriminate. inversion H; subst d0 m.
+  apply Proofs.SyntaxSound.parse_tokens_sound in P. apply (doc_rt_all ts d P). apply toks_wf_of; [|exact A].
+  unfold lex, lex_src in L. cbn [snd] in L. apply (Proofs.SyntaxLexemes.lex_all_lexemes _ _ _ _ _ L).
+Qed.
+Print Assumptions C08_layout_wf.
+
+(* The round-trip law for every document the parser accepts, executable or type-system (schema,
+   scalar, object with implements, interface, union, enum, input object, extend type, directive
+   definitions; descriptions, default values and directives on all of them): if every string /
+   block-string token of the source has a value that is valid UTF-8, the printed text parses
+   again, to a document equal to d up to locations and empty descriptions (erase_loc_descr: the
+   kind/field/value tree with every Loc zeroed and every empty description replaced by none --
+   DESIGN.md Appendix A; on executable documents nothing is replaced, see C08_roundtrip_exec_partial).
+   Partial: the UTF-8 hypothesis (a byte that utf8.DecodeRune would replace is printed as U+FFFD). *)
+Theorem C08_roundtrip_partial : forall src d mb,
+  parse src = Ok (d, mb) -> src_strings_utf8 src = true ->
+  exists d', parse (print_doc d) = Ok (d', false) /\ erase_loc_descr d' = erase_loc_descr d.
+Proof.
+  intros src d mb H A. destruct (roundtrip_src src d mb H A) as (d' & H1 & H2 & _). exists d'. split; assumption.
+Qed.
+Print Assumptions C08_roundtrip_partial.
+
+(* Printing is stable after one round, for every document: the re-parsed document prints to the same text. *)
+Theorem C08_stable : forall src d mb,
+  parse src = Ok (d, mb) -> src_strings_utf8 src = true ->
+  exists d', parse (print_doc d) = Ok (d', false) /\ print_doc d' = print_doc d.
+Proof.
+  intros src d mb H A. destruct (roundtrip_src src d mb H A) as (d' & H1 & _ & H3). exists d'. split; assumption.
+Qed.
+Print Assumptions C08_stable.
+
+(* The same from token lists of any document (any token list with well-formed lexemes). *)
+Theorem C08_roundtrip_all_tokens_partial : forall ts d, parse_tokens ts = Ok d -> toks_wf ts ->
+  exists d', parse (print_doc d) = Ok (d', false) /\ erase_loc_descr d' = erase_loc_descr d /\ print_doc d' = print_doc d.
+Proof. exact roundtrip_tokens. Qed.
+Print Assumptions C08_roundtrip_all_tokens_partial.
+
+(* ---- Print does not modify the AST it is given ---- *)
+
+(* printer.Print is visitor.Visit with leave functions that RETURN the text of the node
+   (ActionUpdate, string).  In the model of Visit's edit application (Syntax/PrintVisit.v: the
+   AST is a heap of structs; an edit whose value is an ast.Node is written into the original
+   struct by updateNodeField, any other value goes into a map copy made by convertMap; slice
+   frames work on the copy made by toSliceInterfaces), running Visit with functions that return
+   strings -- whatever the strings are -- leaves the heap exactly as it was. *)
+Theorem C08_no_edit : forall keys (text : N -> rval -> bytes) fuel h root h' r,
+  visit keys (fun k v => Some (RStr (text k v))) fuel h root = Some (h', r) -> h' = h.
+Proof.
+  intros keys text fuel h root h' r H.
+  apply (visit_no_edit keys (fun k v => Some (RStr (text k v)))
+           ltac:(intros k v x E; inversion E; apply safe_str) fuel h root h' r H).
+Qed.
+Print Assumptions C08_no_edit.
+
+(* More generally: no visit function returning a node (or nil) means no write to the AST;
+   functions may also return nothing (ActionNoChange). *)
+Theorem C08_no_edit_general : forall keys fn, safe_fn fn ->
+  forall fuel h root h' r, visit keys fn fuel h root = Some (h', r) -> h' = h.
+Proof. exact visit_no_edit. Qed.
+Print Assumptions C08_no_edit_general.
+
 (* non-vacuity: a source that satisfies the hypotheses *)
 Example C08_roundtrip_nonvacuous :
   let src := of_string "query Q($a: [Int!] = [1, -2.5e3]) @d(x: ""s\n"") { a: b(x: {k: $a}) ... on T { c } ...F }" in
@@ -131,3 +223,24 @@ Example C08_nonvacuous :
   quote_string [7; 34; 92; 127; 10; 97] =
   Ok [34; 92; 117; 48; 48; 48; 55; 92; 34; 92; 92; 92; 117; 48; 48; 55; 70; 92; 110; 97; 34].
 Proof. vm_compute. reflexivity. Qed.
+
+(* non-vacuity of C08_roundtrip_partial / C08_stable on a type-system document with descriptions
+   of every printed form (block, multi-line block inside a block, quoted, empty) *)
+Example C08_roundtrip_sdl_nonvacuous :
+  let src := of_string """d\ne"" type T implements A & B @x { ""f"" a(""q\nr"" x: Int = 1 @y, z: S): Int @d b: Int } ""ends\"""" enum E { """" A B } extend type U {} directive @d(a: Int) on A | B union U = A | B schema { query: Q }" in
+  match parse src with Ok (d, _) => negb (exec_only d) && src_strings_utf8 src && layout_wfb (lay_doc d) | _ => false end = true.
+Proof. vm_compute. reflexivity. Qed.
+
+(* non-vacuity of C08_block_string_roundtrip: a three-line description, printed inside a block; a
+   description whose later lines are all indented is not printable as a block string *)
+Example C08_block_nonvacuous :
+  printable_as_block [97; 10; 32; 98; 10; 99] = true /\
+  N.iter 1 indent_bytes (block_raw [97; 10; 32; 98; 10; 99]) = [10; 32; 32; 97; 10; 32; 32; 32; 98; 10; 32; 32; 99; 10; 32; 32] /\
+  printable_as_block [97; 10; 32; 98] = false.
+Proof. repeat split; vm_compute; reflexivity. Qed.
+
+(* the visitor model does write to the AST when a visit function returns a node (so C08_no_edit is
+   not true for trivial reasons): Proofs/SyntaxNoEdit.v, visit_can_edit *)
+Example C08_no_edit_nonvacuous :
+  exists h', visit ex_keys ex_fn_node 3 ex_heap 1 = Some (h', Some (RNode 1)) /\ h' <> ex_heap.
+Proof. exact visit_can_edit. Qed.
